@@ -62,6 +62,50 @@ def is_prev_owned(e):
     return e[0] == 'proj' and e[1][0] == 'arg' and e[1][1] == 1 and '.owned' in e[2] and '@Some' in e[2]
 
 
+def _keeps_slot(facts, f, e):
+    """describe the value stored into ReadBuf.owned if it provably names the slot the buffer already owns (or a
+    freshly selected one when there was none); None otherwise.  Accepts Some(change_size(prev, n)),
+    self.owned.map(|p| change_size(p, n)), and alternatives joined by a match/if (phi), whatever the spelling."""
+    if e[0] == 'phi':
+        ds = [_keeps_slot(facts, f, a) for a in e[1]]
+        return ' | '.join(ds) if all(ds) else None
+    if e[0] == 'agg' and e[1].endswith('Option::Some'):
+        return _keeps_ptr(facts, f, e[3][0])
+    if e[0] == 'call' and e[1] == 'std::option::Option::<T>::map' and len(e[2]) == 2:
+        recv = e[2][0]
+        ap = access_path(recv)
+        if not (ap and ap[0][0] == 'arg' and ap[0][1] == 1 and ap[1].split('.')[-1] == 'owned'):
+            return None
+        # the closure: its return value is change_size(<the mapped pointer>, _)
+        for loc, s_ in f.assigns():
+            rv = s_['rv']
+            if rv['k'] == 'agg' and rv.get('ak') == 'closure':
+                g = facts.fn_opt(rv['closure'])
+                if g is None:
+                    continue
+                ge = ExprBuilder(g, multi='phi')
+                rets = [ge.call(t) for l2, t in g.calls() if is_local(t['dest'], 0)] + [ge.rvalue(s2['rv']) for l2, s2 in g.assigns() if s2['lhs']['l'] == 0 and not s2['lhs']['p']]
+                if rets and all(x[0] == 'call' and x[1] == CHANGE_SIZE and x[2][0][0] == 'arg' and x[2][0][1] == 2 for x in rets):
+                    return 'owned.map(|p| change_size(p, _))'
+        return None
+    return None
+
+
+def _keeps_ptr(facts, f, v):
+    if v[0] == 'phi':
+        ds = [_keeps_ptr(facts, f, a) for a in v[1]]
+        return ' | '.join(ds) if all(ds) else None
+    if v[0] == 'call' and v[1] == CHANGE_SIZE and is_prev_owned(v[2][0]):
+        return 'Some(change_size(prev, _))'
+    if v[0] == 'call' and v[1] == INIT_BUFFER:
+        # only where the ReadBuf had no buffer: every init_buffer call of f sits on a None edge of self.owned
+        ves = variant_edges(f, 'std::option::Option', 'None')
+        calls = [l for l, t in f.calls() if (t.get('callee') or '') == INIT_BUFFER]
+        if calls and all(any(f.edge_dominates(v2['raw'], l) for v2 in ves) for l in calls):
+            return 'Some(init_buffer) on the None edge'
+    return None
+
+
 def r1_owner_pointer(r, facts):
     ws = owned_writers(facts)
     for f, loc, kind, e in ws:
@@ -73,15 +117,7 @@ def r1_owner_pointer(r, facts):
             elif e[0] == 'agg' and e[1].endswith('Option::Some') and e[3][0][0] == 'call' and e[3][0][1] == INIT_BUFFER:
                 desc = 'Some(init_buffer)'
         elif kind == 'store':
-            if e[0] == 'agg' and e[1].endswith('Option::Some'):
-                v = e[3][0]
-                if v[0] == 'call' and v[1] == CHANGE_SIZE and is_prev_owned(v[2][0]):
-                    desc = 'Some(change_size(prev, _))'
-                elif v[0] == 'call' and v[1] == INIT_BUFFER:
-                    # only on the empty edge of buffer_init
-                    ves = variant_edges(f, 'std::option::Option', 'None')
-                    ok = any(f.edge_dominates(v2['raw'], loc) for v2 in ves)
-                    desc = 'Some(init_buffer) on the None edge' if ok else None
+            desc = _keeps_slot(facts, f, e)
         elif kind.startswith('call:'):
             if kind == 'call:std::option::Option::<T>::take' and f.path == RELEASE:
                 desc = 'take() in release'
